@@ -235,10 +235,14 @@ def scramble (mc : Bool) (S : FS) : FS :=
 
 /-! ### one-axis projection (`Spectrum._project_one_axis`), needed to state "commutes with projection" -/
 
+/-- `least ≤ j ≤ most`: the slice of the result that source count `h` reaches — GENERATED from the statement
+    `least, most = max(n - (proj_from - hits), 0), min(hits,n)` (proj_to = m, proj_from = n, hits = h) -/
+def inWin (n m h j : Nat) : Bool := decide (Gen.projLeast m n h ≤ j ∧ j ≤ Gen.projMost m n h)
+
 /-- `_cached_projection(proj_to=m, proj_from=n, hits=h)[j]` on the slice `least..most` the code uses, 0 outside:
     C(m,j)·C(n−m,h−j)/C(n,h) -/
 def projW (n m h j : Nat) : Rat :=
-  if m - (n - h) ≤ j ∧ j ≤ min h m then ((chooseN m j * chooseN (n - m) (h - j) : Nat) : Rat) / ((chooseN n h : Nat) : Rat) else 0
+  if inWin n m h j then ((chooseN m j * chooseN (n - m) (h - j) : Nat) : Rat) / ((chooseN n h : Nat) : Rat) else 0
 
 /-- `fs._project_one_axis(m, axis=k)`: raw data are combined (also under the mask); a cell is masked iff one of the
     source slices that reach it is; the result is a fresh unfolded, unlabelled Spectrum without corner masking -/
@@ -246,8 +250,7 @@ def projectAxis (k m : Nat) (S : FS) : FS :=
   let nk := S.shape.getD k 0
   { shape := S.shape.set k (m + 1)
     dat := fun j => ((List.range nk).map fun h => projW (nk - 1) m h (j.getD k 0) * S.dat (j.set k h)).sum
-    msk := fun j => (List.range nk).any fun h =>
-      decide (m - (nk - 1 - h) ≤ j.getD k 0 ∧ j.getD k 0 ≤ min h m) && S.msk (j.set k h)
+    msk := fun j => (List.range nk).any fun h => inWin (nk - 1) m h (j.getD k 0) && S.msk (j.set k h)
     folded := false
     labels := none }
 
